@@ -142,6 +142,25 @@ def is_d10(diffs):
     return bool(diffs) and all(x.split()[2] in ("OXT", "O''") for x in diffs if len(x.split()) > 2 and not x.startswith(("bonds", "groups")))
 
 
+PLANAR_NEIGHBOUR = {("ASN", "ND2"), ("GLN", "NE2"), ("ARG", "NH1"), ("ARG", "NH2")}
+
+
+def rotamer_is_arbitrary(parent):
+    """the hydrogens of `parent` are built around an arbitrary perpendicular (Vector.orthogonal()): it has a single heavy
+    neighbour that defines no plane.  For protein atoms this is decided from the chemistry (the amide / guanidinium nitrogens
+    have a planar neighbour), not from the steric numbers the program computed; for hetero atoms from the program's typing."""
+    heavy = parent.get_bonded_heavy_atoms()
+    if len(heavy) >= 2:
+        return False
+    if len(heavy) == 1 and len(heavy[0].bonded_atoms) > 1:
+        if parent.type == 'atom':
+            if (parent.res_name, parent.name) in PLANAR_NEIGHBOUR:
+                return False
+        elif heavy[0].steric_number == 3:
+            return False
+    return True
+
+
 def frame_dependent_hydrogens(o):
     """hydrogens whose construction uses Vector.orthogonal(): the parent has a single neighbour that defines no plane"""
     n = 0
@@ -150,8 +169,7 @@ def frame_dependent_hydrogens(o):
             continue
         for a in conf.atoms:
             if a.element != 'H' and a.count_bonded_elements('H') > 0:
-                heavy = a.get_bonded_heavy_atoms()
-                if len(heavy) < 2 and not (len(heavy) == 1 and heavy[0].steric_number == 3 and len(heavy[0].bonded_atoms) > 1):
+                if rotamer_is_arbitrary(a):
                     n += 1
     return n
 
